@@ -105,7 +105,7 @@ class C01(E1Prop):
             "construction route {from extents | by conversion from a row-major field | from a parameter pack with the documented storage length}, "
             "write sequence of (coordinate, raw bit patterns)); every extent vector up to B_N is enumerated, larger ones (up to 300 per axis / 32 MiB "
             "of curve storage, boundary-biased, one long axis) come from rapidcheck. Oracles: positions over identity<size1> pairwise distinct and "
-            "below the allocated length read back from the field; value-initialised after construction; distinct fill read back; model N-D array "
+            "below the allocated length read back from the field; distinct fill read back; model N-D array "
             "compared bit-for-bit after writes (after every write when <= 512 cells); ASan and the library's assertions live. "
             "non-trivial = shape not all ones and, for curves, not an equal power-of-two cube; distinct by (instantiation, extents, route, writes)")
     min_eval = 3000
